@@ -162,32 +162,79 @@ theorem entry_chains_cover_the_callers :
 
 /-! ## one layer further up: the callers of value / row readers (`rowReaderCalls`)
 
-OPEN: "every call to `ReadValues` / `ReadRows` / `readRows` hands a failure on". Not provable from a
-per-block decision list: several callers leave their loop on an error and return it afterwards, or
-store it in a field (`rowGroupRows.ReadRows`: `r.err = err`) and report it on the next call; a few are
-in-memory readers no page-load error reaches. What is checked instead is the verdict of every site in
-the situation "failure, nothing delivered" — pinned, so that a site turning from handing the error
-on to swallowing it (or a new caller) breaks this obligation; the sites that leave the loop or are
-unresolved are tied by L1 only (`rows-*`, `generic-*`, `reader-*`, `copy-rows`, `value-reader-*`). -/
+"Every call to `ReadValues` / `ReadRows` / `readRows` hands a failure on." Up to round 3 this was
+OPEN: a per-block decision list cannot see what a caller does after it LEAVES its loop on an error,
+nor that `rowGroupRows.ReadRows` keeps the error in a field. Since round 4 the extractor follows a
+`break` and the exit of a conditional loop into the statements behind the loop, walks function
+literals, sees through re-declarations (`_, err := …` in an inner block) and emits `r.err = err` as the
+non-deciding step `store`; the statement is now checked in full, in the situation "failure that is
+neither nil nor io.EOF, nothing delivered". -/
 
 def verdictName : Verdict → String
   | .handsOn => "hands-on" | .swallows => "swallows" | .leaves => "leaves-loop" | .unresolved => "unresolved"
+  | .failsOther => "other-error"
 
+/-- every way the site can go (conditions about other things taken either way) -/
+def siteVerdicts (site : Site) : List Verdict :=
+  let form := site.2.2.1
+  if form = "tail" then [.handsOn]
+  else if form = "assign" || form = "if-init" then verdicts (failed true) site.2.2.2
+  else [.swallows]
+
+/-- the caller fails whichever way it goes: with the reader's error, or (a write of the values read
+    before failed first) with that other error -/
+def siteFails (site : Site) : Bool :=
+  (siteVerdicts site).all (fun v => v == .handsOn || v == .failsOther)
+
+/-- the call is made on the value reader of a page that is already in memory (`x := page.Values()` in
+    the same function): loaded, verified and decoded before; it ends with io.EOF and nothing else -/
+def inMemory (i : Nat) : Bool :=
+  match rowReaderReceivers[i]? with
+  | some (_, _, src) => src == "page-values"
+  | none => false
+
+/-- **row_reader_callers_hand_the_error_on**: at every call site of a value / row reader in the
+    library, a failure that is neither nil nor io.EOF and came with nothing delivered makes the caller
+    fail — it returns the error (possibly wrapped; after leaving its loop; after keeping it in a
+    field), or the error of a write that failed first — whatever the conditions about other things
+    are; the only exceptions read the value reader of a page that is already in memory, and they are
+    exactly the two bounds / bounding-box scans (functions without an error result). 34 sites. -/
+theorem row_reader_callers_hand_the_error_on :
+    (List.range rowReaderCalls.length).all (fun i =>
+      match rowReaderCalls[i]? with
+      | some site => siteFails site || inMemory i
+      | none => false) = true ∧
+    rowReaderCalls.length = 34 ∧ rowReaderReceivers.length = 34 ∧
+    (rowReaderCalls.zip rowReaderReceivers).all (fun p => p.1.1 == p.2.1) = true ∧
+    ((List.range rowReaderCalls.length).filter (fun i =>
+      match rowReaderCalls[i]? with
+      | some site => !siteFails site
+      | none => true)).map (fun i => (rowReaderReceivers[i]?.map (·.1)).getD "") =
+      ["decimalPage.Bounds", "geospatialBBoxAccumulator.accumulatePage"] := by decide
+
+/-- the sites whose outcome depends on a condition about something else, and both ways they can go -/
+theorem row_reader_forks_known :
+    (rowReaderCalls.filter (fun s => (siteVerdicts s).length > 1)).map
+        (fun s => (s.1, (siteVerdicts s).map verdictName)) =
+      [("copyColumnValues", ["other-error", "hands-on"])] := by decide
+
+/-- the verdict of every site (first branch taken), pinned: a site turning from handing the error on
+    to anything else, a new caller, or a vanished one breaks this obligation -/
 def siteVerdict (site : Site) : String :=
   let form := site.2.2.1
   if form = "tail" then "hands-on"
   else if form = "assign" || form = "if-init" then verdictName (verdict (failed true) site.2.2.2)
   else form
 
-theorem row_reader_verdicts_partial :
+theorem row_reader_verdicts :
     rowReaderCalls.map (fun s => (s.1, s.2.1, siteVerdict s)) = [
       ("GenericReader.ReadRows", "ReadRows", "hands-on"),
-      ("GenericReader.readRows", "ReadRows", "leaves-loop"),
+      ("GenericReader.readRows", "ReadRows", "hands-on"),
       ("PrintRowGroup", "ReadRows", "hands-on"),
       ("Reader.Read", "ReadRows", "hands-on"),
       ("Reader.ReadRows", "ReadRows", "hands-on"),
-      ("bufferedRowReader.read", "ReadRows", "swallows"),
-      ("bufferedRowReader.read", "ReadRows", "leaves-loop"),
+      ("bufferedRowReader.read", "ReadRows", "hands-on"),
+      ("bufferedRowReader.read", "ReadRows", "hands-on"),
       ("columnChunkValueReader.ReadValues", "ReadValues", "hands-on"),
       ("concatenatingRows.ReadRows", "ReadRows", "hands-on"),
       ("concatenatingRowsWrapper.ReadRows", "ReadRows", "hands-on"),
@@ -197,23 +244,70 @@ theorem row_reader_verdicts_partial :
       ("copyColumnValues", "ReadValues", "unresolved"),
       ("copyRows", "ReadRows", "hands-on"),
       ("copyValues", "ReadValues", "hands-on"),
-      ("decimalPage.Bounds", "ReadValues", "leaves-loop"),
+      ("decimalPage.Bounds", "ReadValues", "swallows"),
       ("dedupeRowReader.ReadRows", "ReadRows", "hands-on"),
-      ("filterRowReader.ReadRows", "ReadRows", "leaves-loop"),
+      ("filterRowReader.ReadRows", "ReadRows", "hands-on"),
       ("forwardRowSeeker.ReadRows", "ReadRows", "hands-on"),
-      ("geospatialBBoxAccumulator.accumulatePage", "ReadValues", "leaves-loop"),
+      ("geospatialBBoxAccumulator.accumulatePage", "ReadValues", "swallows"),
       ("mergedRowGroupRows.ReadRows", "ReadRows", "hands-on"),
       ("mergedRowGroupRows.ReadRows", "ReadRows", "hands-on"),
       ("missingPageValues.readWithAdjacent", "ReadValues", "hands-on"),
       ("optionalPageValues.ReadValues", "ReadValues", "hands-on"),
-      ("printPage", "ReadValues", "swallows"),
-      ("readRowsFuncOfLeaf", "ReadValues", "other:col.reader.ReadValues(buf)"),
-      ("readRowsFuncOfLeaf", "ReadValues", "other:col.reader.ReadValues(buf)"),
+      ("printPage", "ReadValues", "hands-on"),
+      ("readRowsFuncOfLeaf", "ReadValues", "hands-on"),
+      ("readRowsFuncOfLeaf", "ReadValues", "hands-on"),
       ("reader.ReadRows", "ReadRows", "hands-on"),
       ("repeatedPageValues.ReadValues", "ReadValues", "hands-on"),
-      ("rowGroupRows.ReadRows", "ReadValues", "swallows"),
+      ("rowGroupRows.ReadRows", "ReadValues", "hands-on"),
       ("scanRowReader.ReadRows", "ReadRows", "hands-on"),
       ("transformRowReader.ReadRows", "ReadRows", "hands-on"),
       ("variantLeafReader.extractBooleans", "ReadValues", "hands-on")] := by decide
+
+/-! ## the readers that REMEMBER a failed read (family `readerstate`)
+
+`FilePages.desync` (mirror: `Seek.St.lost`, set by a failed `ReadPage` only and consumed by the next
+`SeekToRow` only — `Props.C13.corrupted_stays_reported` rests on it) and `rowGroupRows.err` (mirror:
+`RowsState.St.err`). -/
+
+/-- the error of `ReadValues` is kept in exactly one field, `rowGroupRows.err` (and returned at once
+    as well: `row_reader_verdicts`) -/
+theorem error_stores_known :
+    readerErrorStores = [("rowGroupRows.ReadRows", "ReadValues", "r.err")] := by decide
+
+/-- **reader_error_state_as_mirrored**: every write and read of the two fields, and every call on a
+    column reader in `rowGroupRows`, with the conditions around it, is what the mirrors transliterate:
+    `desync` is set under `err != nil && err != io.EOF` in `ReadPage` and nowhere else, cleared only by
+    `SeekToRow` when it was set (and by init / Close) — seeded/C13-4a (`f.desync = err != nil && …`:
+    a successful read clears it) changes the second row; `r.err` is set by the failing `ReadValues`
+    branch of `ReadRows`, returned by the next `ReadRows`, and cleared only by `Reset` and by the
+    branch of `SeekToRow` that repositions — and in both the column readers are repositioned under
+    the SAME conditions as the field is cleared — seeded/C13-4b (`if r.rowIndex > 0 { …Reset() }`) puts
+    a guard on the `Reset` row of `columnRepositions` that the `r.err = nil` row does not have. -/
+theorem reader_error_state_as_mirrored :
+    stateWrites = [
+      ("FilePages.Close", "f.desync", "false", []),
+      ("FilePages.ReadPage", "f.desync", "true", ["err != nil && err != io.EOF"]),
+      ("FilePages.SeekToRow", "f.desync", "false", ["desync"]),
+      ("FilePages.init", "f.desync", "false", []),
+      ("rowGroupRows.ReadRows", "r.err", "err", ["c.offset == c.length", "n == 0"]),
+      ("rowGroupRows.Reset", "r.err", "nil", []),
+      ("rowGroupRows.SeekToRow", "r.err", "nil", ["rowIndex != r.rowIndex || r.err != nil"])] ∧
+    stateReads = [
+      ("FilePages.SeekToRow", "desync := f.desync"),
+      ("rowGroupRows.ReadRows", "if r.err != nil"),
+      ("rowGroupRows.ReadRows", "return 0, r.err"),
+      ("rowGroupRows.SeekToRow", "if rowIndex != r.rowIndex || r.err != nil")] ∧
+    columnRepositions = [
+      ("rowGroupRows.Close", "Close", []),
+      ("rowGroupRows.ReadRows", "ReadValues", ["c.offset == c.length"]),
+      ("rowGroupRows.Reset", "Reset", []),
+      ("rowGroupRows.SeekToRow", "SeekToRow", ["rowIndex != r.rowIndex || r.err != nil"])] := by decide
+
+/-- wherever `r.err` is cleared, the column readers are repositioned under the same conditions
+    (stated on the extracted facts, independent of the pinned texts) -/
+theorem error_cleared_only_with_reposition :
+    (stateWrites.filter (fun w => w.2.1 == "r.err" && w.2.2.1 == "nil")).all (fun w =>
+      columnRepositions.any (fun c => c.1 == w.1 && (c.2.1 == "Reset" || c.2.1 == "SeekToRow") && c.2.2 == w.2.2.2)) = true ∧
+    (stateWrites.filter (fun w => w.2.1 == "r.err" && w.2.2.1 == "nil")).length = 2 := by decide
 
 end PqModel.Props.FactsCheckC13
